@@ -77,6 +77,7 @@ RULES = [
     (r'^Parsed::to_naive_date$', ['C14:pz.resolve', 'C14:pz.raw'], 'C15_to_naive_date_total', ''),
     (r'^Parsed::to_naive_time$', ['C14:pz.resolve', 'C14:pz.raw'], 'C15_to_naive_time_total', ''),
     (r'^Parsed::to_naive_datetime_with_offset$', ['C14:pz.resolve', 'C14:pz.raw'], 'C15_to_naive_datetime_with_offset_total', ''),
+    (r'^Parsed::to_fixed_offset$', ['C14:pz.resolve', 'C14:pz.raw'], 'owner: C14_to_fixed_offset_spec', 'every field record'),
     (r'^Parsed::to_', ['C14:pz.resolve', 'C14:pz.raw'], 'none: partial -- goes through C15_to_naive_datetime_with_offset_total; the final zone step: correspondence + judge', ''),
     (r'^Parsed::[a-z_0-9]+$', ['C14:pz.setseq'], 'none: field getters', 'return the stored Option field'),
     (r"^StrftimeItems<'a>::parse$", ['C15:c15.sfparse'], 'C15_strftime_parse_total', ''),
